@@ -320,6 +320,8 @@ structure FrontResult where
   stdout : List String
   /-- per converter interface: name and rendered functions -/
   blocks : List (String × List (String × String)) := []
+  /-- per function: name, arg style, receiver, reverse, error result, source by pointer -/
+  metas : List (String × Bool × String × Bool × Bool × Bool) := []
   /-- comment groups after parsing (for the base code) -/
   groups : List (List Comment) := []
   /-- comment groups as `InsertComment` leaves them (extents; markers by entry index) -/
@@ -350,6 +352,9 @@ def front (f : Facts) : FrontResult :=
       { status := "ok", stderr := st.stderr, stdout := st.stdout, groups := st.docs.groups,
         planted := plantMarkers st.docs.groups (pes.map (·.entry.obj)),
         blocks := (pes.zip bss).map fun (pe, bs) =>
-          (pe.entry.obj.name, bs.map fun b => (b.fn.name, funcToString b.fn)) }
+          (pe.entry.obj.name, bs.map fun b => (b.fn.name, funcToString b.fn)),
+        metas := (pes.zip bss).flatMap fun (pe, bs) =>
+          (pe.methods.zip bs).map fun (m, b) =>
+            (b.fn.name, b.fn.dstVarStyle == .arg, b.fn.receiver, m.opts.reverse, b.fn.retError, b.fn.src.pointer) }
 
 end Convergen
